@@ -87,6 +87,8 @@ pub struct AstLowering {
     pub(super) method_param_names: HashMap<(String, String), Vec<String>>,
     /// class name -> parent class name (for looking up inherited methods)
     pub(super) class_parents: HashMap<String, String>,
+    /// local alias -> imported name (`from m import Email as E` gives E -> Email)
+    pub(super) import_aliases: HashMap<String, String>,
     /// When lowering methods inside an impl block, this tracks the current target type name.
     /// Used to avoid rewriting `T(x)` inside `impl T` bodies (e.g. inside `T.from_underlying`).
     pub(super) current_impl_type: Option<String>,
@@ -190,6 +192,7 @@ impl AstLowering {
             newtype_checked_ctor: HashMap::new(),
             method_param_names: HashMap::new(),
             class_parents: HashMap::new(),
+            import_aliases: HashMap::new(),
             current_impl_type: None,
         }
     }
@@ -282,6 +285,24 @@ impl AstLowering {
             self.register_method_signatures(program);
             for (key, names) in imported {
                 self.method_param_names.entry(key).or_insert(names);
+            }
+        }
+
+        // Names imported under an alias: the alias stands for the imported declaration (and its validation hook).
+        for decl in &program.declarations {
+            if let ast::Declaration::Import(ref import) = decl.node {
+                if let ast::ImportKind::From { items, .. } = &import.kind {
+                    for item in items {
+                        if let Some(alias) = &item.alias {
+                            self.import_aliases.insert(alias.clone(), item.name.clone());
+                        }
+                    }
+                }
+                if let (ast::ImportKind::Module(path), Some(alias)) = (&import.kind, &import.alias) {
+                    if let Some(last) = path.segments.last() {
+                        self.import_aliases.insert(alias.clone(), last.clone());
+                    }
+                }
             }
         }
 
